@@ -7,15 +7,18 @@
   length, all four gateway classes) or over every admissible timed trace with the reconnect
   timeout `rt`, the check gap `G` and the refresh delay `d` universally quantified.
 
-  Two parts of the property are **false of the current code**; the full statements are kept as
-  `def … : Prop`, the provable part is `…_partial`, the witness `…_counterexample`:
+  Two parts of the property were false of the tree before two repairs (`fx = false` in the
+  model; the old definitions are kept so the failures stay on record as
+  `…_unfixed_counterexample`) and are proved in full for the code as it is now:
 
-  * `ReconnectFollowsLoss .tcpAsync` — an orderly close by the peer reaches
-    `AsyncTCPMySensorsProtocol.connection_lost(None)`; `_connection_lost` only reconnects `if exc`,
-    and the watchdog timer has just been cancelled: the link stays down for ever.
-  * `QuietAfterStop .serialAsync / .tcpAsync` — `AsyncTasks.stop` cancels
-    `transport.connect_task`, which is only set by *re*connects; the dial loop of
-    `await gateway.start()` (`while True`) keeps dialling every `rt` after `stop()`.
+  * `ReconnectFollowsLoss` — before: an orderly close by the peer reached
+    `AsyncTCPMySensorsProtocol.connection_lost(None)`; `_connection_lost` only reconnects `if exc`
+    and the watchdog timer had just been cancelled, so the link stayed down for ever.  Now
+    `eof_received` requests the reconnect.
+  * `QuietAfterStop` — before: `AsyncTasks.stop` cancels `transport.connect_task`, which is
+    only set by *re*connects, and the dial loop of `await gateway.start()` was `while True`: it
+    kept dialling every `rt` after `stop()`.  Now both `async_connect` loops test
+    `while transport.protocol` like the threaded ones.
 
   Also visible in the model and not hidden: a connect attempt that succeeds after
   `disconnect()/stop()` hands the new connection to `protocol_factory() == None`; the reader
@@ -73,17 +76,12 @@ def ReconnectFollowsLoss (f : Flavour) : Prop :=
     (lstep f (final f linit pre) e).1.proto = true ∧
     ∃ tr, (lstep f (final f linit pre) e).1.link = .attempting tr
 
-/-- proved for the serial gateways and the threaded TCP gateway for every event, and for the
-    asyncio TCP gateway for every event except an orderly close by the peer -/
-theorem reconnect_follows_loss_partial (f : Flavour) (pre : List Ev) (e : Ev)
-    (hx : ¬ (f = .tcpAsync ∧ e = .peerCloseOrderly))
-    (hup : isUp (final f linit pre).link = true)
-    (hdown : isUp (lstep f (final f linit pre) e).1.link = false) (hu : userEv e = false) :
-    Out.connectAttempt ∈ (lstep f (final f linit pre) e).2 ∧
-    (lstep f (final f linit pre) e).1.proto = true ∧
-    ∃ tr, (lstep f (final f linit pre) e).1.link = .attempting tr := by
+/-- **every event sequence, every gateway class**: a loss the user did not request is followed
+    in the same step by a connect attempt, a live connect loop and an intact protocol -/
+theorem reconnect_follows_loss (f : Flavour) : ReconnectFollowsLoss f := by
+  intro pre e hup hdown hu
   have hi : inv (final f linit pre) = true := final_inv f pre linit rfl
-  have h := reconnOk_all f (final f linit pre) e hx
+  have h := reconnOk_all f (final f linit pre) e
   simp only [reconnOk, hi, hup, hdown, hu, Bool.not_false, Bool.and_self, Bool.not_true,
     Bool.false_or, Bool.and_eq_true] at h
   obtain ⟨⟨h1, h2⟩, h3⟩ := h
@@ -94,12 +92,24 @@ theorem reconnect_follows_loss_partial (f : Flavour) (pre : List Ev) (e : Ev)
   | up => rw [hl] at h3; cases h3
   | upEof => rw [hl] at h3; cases h3
 
-/-- the asyncio TCP gateway: connect, then the peer closes in an orderly way — `on_conn_lost(None)`
-    and nothing else, no connect loop, although the user asked for nothing -/
-theorem reconnect_follows_loss_counterexample : ¬ ReconnectFollowsLoss .tcpAsync := by
+/-- the same statement about the tree before the repairs -/
+def ReconnectFollowsLossUnfixed (f : Flavour) : Prop :=
+  ∀ (pre : List Ev) (e : Ev),
+    isUp (finalG false f linit pre).link = true →
+    isUp (lstepG false f (finalG false f linit pre) e).1.link = false → userEv e = false →
+    Out.connectAttempt ∈ (lstepG false f (finalG false f linit pre) e).2
+
+/-- before the repair, asyncio TCP: connect, then the peer closes in an orderly way —
+    `on_conn_lost(None)` and nothing else, no connect loop, although the user asked for nothing -/
+theorem reconnect_follows_loss_unfixed_counterexample : ¬ ReconnectFollowsLossUnfixed .tcpAsync := by
   intro h
-  have := (h [.connectOk] .peerCloseOrderly rfl rfl rfl).1
+  have := h [.connectOk] .peerCloseOrderly rfl rfl rfl
   revert this; decide
+
+/-- the repaired asyncio TCP gateway on the same events: the dial starts, then `on_conn_lost(None)` -/
+theorem tcp_async_orderly_close_redials :
+    outsOf .tcpAsync linit [.connectOk, .peerCloseOrderly, .connectOk] =
+      [.connMade, .connectAttempt, .connLost false, .connMade] := by decide
 
 /-- the threaded TCP reader does not notice an orderly close at all (`recv() == b""` is
     ignored); the loss is only found by the watchdog or the next failing write -/
@@ -125,41 +135,27 @@ theorem retry_until_success (f : Flavour) (rt t0 n : Nat) (tr : Bool) :
 def QuietAfterStop (f : Flavour) : Prop :=
   ∀ (pre post : List Ev), ∀ o ∈ outsOf f (final f linit (pre ++ [.stop])) post, loud o = false
 
-/-- proved for the threaded gateways without condition, and for the asyncio gateways when
-    `stop()` does not arrive while the dial loop of `await gateway.start()` is still running
-    (`attempting false`: a connect loop that is not `transport.connect_task`) -/
-theorem quiet_after_stop_partial (f : Flavour) (pre post : List Ev)
-    (h : f.isAsync = true → (final f linit pre).link ≠ .attempting false) :
-    ∀ o ∈ outsOf f (final f linit (pre ++ [.stop])) post, loud o = false := by
+/-- **every event sequence, every gateway class**: after `stop()` nothing but (possibly) the
+    crash of an attempt that was already in flight -/
+theorem quiet_after_stop (f : Flavour) : QuietAfterStop f := by
+  intro pre post
   have hi : inv (final f linit pre) = true := final_inv f pre linit rfl
   have hs := stopOk_all f (final f linit pre)
   have hd : dead f (lstep f (final f linit pre) .stop).1 = true := by
-    simp only [stopOk, hi, Bool.true_and, Bool.or_eq_true, Bool.not_eq_true'] at hs
-    cases hs with
-    | inr h2 => exact h2
-    | inl h1 =>
-      exfalso
-      cases ha : f.isAsync with
-      | false => simp [ha] at h1
-      | true =>
-        have hne := h ha
-        simp [ha] at h1
-        exact hne h1
+    simp only [stopOk, hi, Bool.not_true, Bool.false_or] at hs
+    exact hs
   rw [final_append]
   exact dead_quiet f post _ hd
 
-/-- both asyncio gateways: `stop()` while the first connect is still being retried, then the
-    attempt in flight fails — a new connect attempt is made `rt` later -/
-theorem quiet_after_stop_counterexample :
-    ¬ QuietAfterStop .serialAsync ∧ ¬ QuietAfterStop .tcpAsync := by
-  constructor <;> intro h <;> have := h [] [.connectFail] .connectAttempt (by decide) <;> cases this
+/-- the same statement about the tree before the repairs -/
+def QuietAfterStopUnfixed (f : Flavour) : Prop :=
+  ∀ (pre post : List Ev), ∀ o ∈ outsOfG false f (finalG false f linit (pre ++ [.stop])) post, loud o = false
 
-/-- the threaded gateways are quiet after stop() in every event sequence -/
-theorem quiet_after_stop_sync (pre post : List Ev) :
-    (∀ o ∈ outsOf .serialSync (final .serialSync linit (pre ++ [.stop])) post, loud o = false) ∧
-    (∀ o ∈ outsOf .tcpSync (final .tcpSync linit (pre ++ [.stop])) post, loud o = false) :=
-  ⟨quiet_after_stop_partial .serialSync pre post (by intro h; cases h),
-   quiet_after_stop_partial .tcpSync pre post (by intro h; cases h)⟩
+/-- before the repair, both asyncio gateways: `stop()` while the first connect is still being
+    retried, then the attempt in flight fails — a new connect attempt is made `rt` later -/
+theorem quiet_after_stop_unfixed_counterexample :
+    ¬ QuietAfterStopUnfixed .serialAsync ∧ ¬ QuietAfterStopUnfixed .tcpAsync := by
+  constructor <;> intro h <;> have := h [] [.connectFail] .connectAttempt (by decide) <;> cases this
 
 /-- not hidden: a connect attempt that completes after `disconnect()` / `stop()` makes the new
     reader thread / the connect task die with `AttributeError`; no callback fires -/
